@@ -37,6 +37,8 @@ def _dsym(obj):
         return f"d:{obj.name}:{obj.age}"
     if f == "o":
         return f"o:{obj.guid}:{obj.label}"
+    if f == "f":
+        return f"f:{obj.name}:{obj.is_dir}:{obj.size}:{obj.mdate}"
     return f"w:{obj._dict}"
 
 
@@ -302,6 +304,8 @@ def build_state(seed, tier, nt, typed=None):
         cfg["slots"] = ["typed" if typed else "plain"]
     else:
         cfg["slots"] = [cfg["slots"][0] if cfg["slots"][0] in ("plain", "typed") else "plain"]
+    if cfg["flavours"] == ["f"]:
+        cfg["flavours"] = ["s", "i", "w"]
     cfg["length"] = min(cfg["length"], 25)
     cfg["weights"] = {"add": 30, "move": 5, "remove": 3, "set_data": 6, "sort": 2}
     w = new_world(cfg, nt)
